@@ -249,9 +249,50 @@ pub fn property() -> Property {
         rule: "file info: 0..6 files with distinct names of 1..63 bytes (ASCII and UTF-8), contents of length 0..300 KB (2 MiB thorough) forced onto the SHA-1 padding boundaries, handed to FileInfo::new as paths 0..2 directories deep; entries = (base name, exact size, own SHA-1); write_to_buffer decoded by a fixed-position reader (magic @0, 1024 @24, table size @28, records @1024+96i: size @0, name @8 NUL-padded to 64, digest @72 padded to 24); from_existing(written) = same entries. patch lists: boot and game lists of 0..8 entries, lengths / sizes up to 2^63-1 with sum < 2^63, versions, 1..6 hashes, URLs free of TAB / CR LF / ','; to_string equals the harness's renderer of the documented layout; from_string(to_string(x)) preserves length, size on disk, version, URL (game: hash block size, hashes) and patch_length = sum of lengths. Non-trivial: >= 2 files one of which is >= 64 bytes; >= 2 entries (game: one with >= 2 hashes). Distinct by hash of the table / text.",
         assumptions: &["names <= 63 bytes; URLs, versions, ids free of the separators", "unknown_a / unknown_b of patch entries are not part of the statement (the parser drops them)"],
         pre: Some(pre),
+        post: None,
         parts: vec![
             Box::new(Part { name: "fiin", driver: Driver::Gen(fiin_strategy, 1_000, 10_000), prop: prop_fiin, exhaustive: false }),
             Box::new(Part { name: "patchlist", driver: Driver::Gen(list_strategy, 6_000, 100_000), prop: prop_list, exhaustive: false }),
         ],
     }
+}
+
+/// (fiin files, boot lists, game lists)
+pub fn seed_files(ctx: &Ctx, n: usize) -> (Vec<(String, Vec<u8>)>, Vec<(String, Vec<u8>)>, Vec<(String, Vec<u8>)>) {
+    let mut fiins = vec![];
+    if let Ok(b) = std::fs::read(util::repo_root().join("resources/tests/test.fiin")) {
+        fiins.push(("fixture".to_string(), b));
+    }
+    // own encoder of the fixed-position layout (DESIGN A.9)
+    for k in 0..n {
+        let mut w = crate::build::W::new();
+        w.bytes(b"FileInfo").zeros(16).i32(1024).i32(96 * (k as i32 + 1)).zeros(992);
+        for i in 0..=k {
+            let name = format!("file{}-{}.dat", k, i);
+            w.i32(1000 * i as i32 + k as i32).zeros(4);
+            let mut nb = name.into_bytes();
+            nb.resize(64, 0);
+            w.bytes(&nb);
+            w.bytes(&crate::oracle::sha1::sha1(&[i as u8; 7])).zeros(4);
+        }
+        fiins.push((format!("gen{}", k), w.b.clone()));
+    }
+    let ls = list_strategy(ctx);
+    let mut boots = vec![];
+    let mut games = vec![];
+    let mut k = 0u64;
+    while (boots.len() < n || games.len() < n) && k < 400 {
+        let c = draw_fixed(&ls, 0xC10_5EED + k);
+        k += 1;
+        if c.entries.is_empty() {
+            continue;
+        }
+        let t = render(&c).into_bytes();
+        if c.game && games.len() < n {
+            games.push((format!("gen{}", games.len()), t));
+        } else if !c.game && boots.len() < n {
+            boots.push((format!("gen{}", boots.len()), t));
+        }
+    }
+    (fiins, boots, games)
 }
